@@ -34,4 +34,7 @@ def check(ctx: Ctx) -> str:
     from . import c25
 
     ctx.run_imported("C25", {"R4"}, c25.check)
+    from ..escrules import sandbox_format_keeps_type_rule
+
+    sandbox_format_keeps_type_rule(ctx, "R6")
     return __doc__ or ""
